@@ -162,8 +162,33 @@ func runC13(c *Check) {
 			nBody++
 			c.Touch(fn)
 			base := st.Addr.(*ssa.FieldAddr).X
+			// the element the body is stored into, as (list, index)
+			elemIndex := func(v ssa.Value) ssa.Value {
+				for _, r := range rootsAll(v) {
+					if ia, ok := r.(*ssa.IndexAddr); ok && loadOfField(ia.X, a.blocksRequested) != nil {
+						return ia.Index
+					}
+				}
+				return nil
+			}
+			baseIdx := elemIndex(base)
 			eq := equalEdge(func(x, y ssa.Value) bool {
-				return mentionsField(x, a.rbHash) && derivesFromValue(x, base) && derivesFromAnyParam(y, fn)
+				if !mentionsField(x, a.rbHash) || !derivesFromAnyParam(y, fn) {
+					return false
+				}
+				if derivesFromValue(x, base) {
+					return true
+				}
+				// the same element re-read through the index a search handed out (index of the match or -1)
+				if xi := elemIndex(x); xi != nil && baseIdx != nil {
+					if linOfValue(xi).equal(linOfValue(baseIdx)) {
+						return true
+					}
+					if fi := foundIndexOf(baseIdx); fi != nil && linOfValue(fi).equal(linOfValue(xi)) {
+						return true
+					}
+				}
+				return false
 			}, true)
 			ok, w := mustPass(st, eq)
 			c.Decide(ok, "R3", c.P.Key(fn)+"#stores-body", st.Pos(), "edge-cutset", w,
